@@ -87,12 +87,14 @@ class ResolvePortRefs(ElabPass):
                 if isinstance(conn, NoConn):
                     module_portrefs.add(_get_connref(inst, portname))
 
-        # Collect the `PortRef`s taken *inside* the Slices and Concats which the Instances of `module` are connected to.
-        # Their connected ports hang on the Slice or Concat, not on the `PortRef`, so `follow` below never meets them.
+        # Collect the `PortRef`s taken *inside* the Slices, Concats and anonymous Bundles which the Instances of `module` are connected to.
+        # Their connected ports hang on the Slice, Concat or anonymous Bundle, not on the `PortRef`, so `follow` below never meets them.
         self.nested_portrefs: List[PortRef] = list()
 
         def mentioned_inside(conn: Connectable) -> None:
             parts = [conn.parent] if isinstance(conn, Slice) else list(conn.parts) if isinstance(conn, Concat) else []
+            if isinstance(conn, AnonymousBundle):
+                parts = list(conn._namespace.values())
             for part in parts:
                 if isinstance(part, PortRef):
                     if part not in self.nested_portrefs:
@@ -384,10 +386,10 @@ class ResolvePortRefs(ElabPass):
             self.fail(msg)
         # So `group` has two entries: a `NoConn` and a `PortRef`
         noconn, portref = group if isinstance(group[0], NoConn) else reversed(group)
-        # The no-connected Port must not be referred to inside a Slice or Concat either.
+        # The no-connected Port must not be referred to inside a Slice, Concat or anonymous Bundle either.
         # Its `PortRef` would be left unresolved there, and go unnoticed wherever a later Slice drops that part.
         if portref in self.nested_portrefs:
-            msg = f"Invalid `NoConn` on {portref}, which is also connected inside a Slice or Concat in {module}"
+            msg = f"Invalid `NoConn` on {portref}, which is also connected inside a Slice, Concat or anonymous Bundle in {module}"
             self.fail(msg)
         return self.replace_noconn(module, portref=portref, noconn=noconn)
 
